@@ -310,6 +310,51 @@ func corpusHProgs(tc *Toolchain) []*HProg {
 			out = append(out, &HProg{Name: "verif-heap/" + filepath.Base(f), Root: filepath.Base(f), Files: map[string][]byte{filepath.Base(f): b}})
 		}
 	}
+	// ... and directories: <dir>/<dir>.ddp plus its other files; a file ARCHIVES ("lib.a src.c ...") names static
+	// libraries that are built from the C sources next to it (programs whose external dependencies depend on each other)
+	dirs, _ := filepath.Glob(filepath.Join(simDir, "corpus_heap", "*", "ARCHIVES"))
+	sort.Strings(dirs)
+	for _, a := range dirs {
+		d := filepath.Dir(a)
+		name := filepath.Base(d)
+		hp := &HProg{Name: "verif-heap/" + name, Root: name + ".ddp", Files: map[string][]byte{}}
+		ents, _ := os.ReadDir(d)
+		for _, e := range ents {
+			if e.Type().IsRegular() && e.Name() != "ARCHIVES" {
+				if b, err := os.ReadFile(filepath.Join(d, e.Name())); err == nil {
+					hp.Files[e.Name()] = b
+				}
+			}
+		}
+		spec, _ := os.ReadFile(a)
+		tmp := filepath.Join(workRoot, "archives-"+name)
+		os.MkdirAll(tmp, 0o755)
+		for _, line := range strings.Split(string(spec), "\n") {
+			f := strings.Fields(line)
+			if len(f) < 2 {
+				continue
+			}
+			var objs []string
+			for _, src := range f[1:] {
+				o := filepath.Join(tmp, strings.TrimSuffix(src, ".c")+".o")
+				if out, err := exec.Command("gcc", "-c", "-O1", "-o", o, filepath.Join(d, src)).CombinedOutput(); err != nil {
+					infra("corpus_heap/%s: %s does not compile: %s", name, src, out)
+				}
+				objs = append(objs, o)
+				delete(hp.Files, src)
+			}
+			lib := filepath.Join(tmp, f[0])
+			os.Remove(lib)
+			if out, err := exec.Command("ar", append([]string{"rcsD", lib}, objs...)...).CombinedOutput(); err != nil {
+				infra("corpus_heap/%s: ar %s: %s", name, f[0], out)
+			}
+			if b, err := os.ReadFile(lib); err == nil {
+				hp.Files[f[0]] = b
+			}
+		}
+		os.RemoveAll(tmp)
+		out = append(out, hp)
+	}
 	return out
 }
 
